@@ -184,6 +184,7 @@ def build(cfg, *, strategy=None, calib=None, ssm=None, lam=None, with_ref=True):
         b.solver = probdiffeq.solver_dynamic(strategy=b.strategy, constraint=b.constraint,
                                              constraint_init=b.constraint_init,
                                              re_linearize_after_calibration=cfg["relin"])
+    b.t0 = t0
     if not with_ref:
         return b
     # ---- reference model
